@@ -1,4 +1,4 @@
-import AsModel.Generated.Wiring
+import AsModel.WiringResolve
 /-!
 # C16 — disabling the regex feature removes only regex matching
 
@@ -8,22 +8,6 @@ feature resolution for this two-crate graph.  A dependent crate selects
 crates are then compiled with follows.
 -/
 namespace AsModel.Generated
-
-structure Selection where
-  defaultFeatures : Bool     -- `default-features` of the dependent's `assert-struct` line
-  regex : Bool               -- `features = ["regex"]` written explicitly
-  deriving DecidableEq, Repr
-
-structure Cfgs where
-  runtimeRegex : Bool        -- `cfg(feature = "regex")` in assert-struct
-  macroRegex : Bool          -- `cfg(feature = "regex")` in assert-struct-macros
-  deriving DecidableEq, Repr
-
-def resolve (w : Wiring) (sel : Selection) : Cfgs :=
-  let rt := (sel.defaultFeatures && w.rtDefault.contains "regex") || sel.regex
-  let mc := (w.macroDepDefaultFeatures && w.macroDefault.contains "regex") ||
-    w.macroDepFeatures.contains "regex" || (rt && w.rtRegex.contains "assert-struct-macros/regex")
-  ⟨rt, mc⟩
 
 def allSelections : List Selection := [⟨true, false⟩, ⟨true, true⟩, ⟨false, false⟩, ⟨false, true⟩]
 
